@@ -6,7 +6,9 @@ thread created with `spawn`), checks that every action is enabled when the imple
 the white-box pool snapshot printed before every release of the pool lock with the model state.
 
 Mapping (T = thread prefix of the record):
-  API submit/submitc/put … SNAP poolmu      submit / submitc k / put        (the SNAP closes the critical section)
+  API submit/submitc/put … SNAP poolmu      submit / submitc k / submitf / put   (the SNAP closes the critical section;
+                                             submitc by worker k of that pool = submitc k, by any other non-owner thread,
+                                             e.g. a worker of another pool inside its work function = submitf)
   IREG kick:P:T            wStart            IPOST kick:P:T by T outside a section        wSelfKick
   IH kick:P:T begin        wKick             SNAP poolmu:P by worker T     wEnter | wAfter | wTimeoutRun (by its pc)
   IH idle:P:T begin        wTimeout          IPOST dead:n by a worker      wExit        IH dead:n begin   oJoin / died
@@ -88,7 +90,7 @@ def norm (s : St) : St :=
   { s with w := fun j => ws.getD j {}, it := fun j => is.getD j {} }
 
 def actName : Act → String
-  | .submit => "submit" | .submitc _ => "submitc" | .put => "put" | .wStart _ => "wStart" | .wSelfKick _ => "wSelfKick"
+  | .submit => "submit" | .submitc _ => "submitc" | .submitf => "submitf" | .put => "put" | .wStart _ => "wStart" | .wSelfKick _ => "wSelfKick"
   | .wKick _ => "wKick" | .wEnter _ => "wEnter" | .wAfter _ => "wAfter" | .wTimeout _ => "wTimeout"
   | .wTimeoutRun _ => "wTimeoutRun" | .wExit _ => "wExit" | .oEv => "oEv" | .oSteal => "oSteal" | .oComplete => "oComplete"
   | .oFinish => "oFinish" | .oTn => "oTn" | .oTnRun => "oTnRun" | .oJoin _ => "oJoin"
@@ -130,9 +132,10 @@ def act (s : S) (p : PoolRep) (a : Act) : Except String (S × PoolRep) :=
     if st'.fatal then .error s!"model reaches iv_fatal on {actName a} in pool {p.name}" else
     let lab := match a with
       | .wEnter k | .wAfter k | .wTimeoutRun k => s!"{actName a}-{outcome p.st st' k}"
-      | .oFinish => if st'.freed then "oFinish-free" else "oFinish"
+      | .oFinish => if st'.freed then "oFinish-free"
+                    else if p.st.shut && p.st.started == 0 && p.st.done.isEmpty then "oFinish-keep-queued" else "oFinish"
       | .oTnRun => if st'.nw > p.st.nw then "oTnRun-start" else "oTnRun-nothing"
-      | .submit | .submitc _ => s!"{actName a}-" ++ (if st'.nw > p.st.nw then "start" else if st'.tnOwed && !p.st.tnOwed then "threadneeded"
+      | .submit | .submitc _ | .submitf => s!"{actName a}-" ++ (if st'.nw > p.st.nw then "start" else if st'.tnOwed && !p.st.tnOwed then "threadneeded"
                                   else if p.st.idle != [] then "kick" else "nokick")
       | _ => actName a
     let p' := { p with st := norm st' }
@@ -250,7 +253,9 @@ def closeSection (s : S) (t : Nat) (p : PoolRep) (kv : List (String × String)) 
       if t == p.owner then .ok (.submit, true) else
       match p.tw.lookup t with
       | some k => .ok (.submitc k, false)
-      | none => .error s!"{op} by T{t}, which is neither the owner nor a worker"
+      | none =>
+        -- a thread that is neither the owner nor a worker of this pool (a worker of another pool, ...): only a continuation is valid use
+        if op == "submitc" then .ok (.submitf, false) else .error s!"{op} by T{t}, which is not the owner"
     | none =>
       match p.tw.lookup t with
       | some k =>
@@ -473,7 +478,17 @@ partial def stepRec (s : S) (ws : List String) : S × List String :=
               | some ("put", _, _) => if p.st.evOwed || p.st.owner != .idle then (s, []) else diverge s s!"IPOST {ev} after put, model does not have it owed"
               | _ => diverge s s!"IPOST {ev} by T{t} outside a critical section"
             | _ => diverge s s!"IPOST {ev} by T{t} outside a critical section"
-    | ["IUNREG", _] => (s, [])
+    | ["IUNREG", ev] =>
+      -- the pool's events are unregistered when iv_work_event frees the pool: the model must have freed it in the
+      -- critical section that just closed (oFinish)
+      match ev.splitOn ":" with
+      | ["tn", pn] =>
+        match getPool s pn with
+        | some p =>
+          if p.st.freed then (s, [])
+          else diverge s s!"IUNREG {ev}: the implementation frees pool {pn}, the model has not freed it (shut {p.st.shut}, started {p.st.started}, queue {p.st.queue.map (itemName p)}, done {p.st.done.map (itemName p)}, tnOwed {p.st.tnOwed})"
+        | none => (s, [])
+      | _ => (s, [])
     | ["ITREG", _, e, n] =>
       -- the idle timer must be 10 s from the worker's notion of now (which is not later than the clock)
       match (e.splitOn "=").getD 1 "" |>.toNat?, (n.splitOn "=").getD 1 "" |>.toNat? with
